@@ -244,6 +244,13 @@ PINS = {
 #: sat in condition.py, C10-m4 in locks.py, C06-m9 - an `__aexit__` that returns something truthy and swallows a cancellation -
 #: in locks.py again), so every machine-based property pins them in addition to its own files
 CORE_PINS = ['loop', 'waitq', 'handler', 'notification', 'condition', 'timing', 'flag', 'task', 'context', 'init', 'locks']
+#: properties about scopes, tasks and "every operation": their programs run arbitrary activities, and whatever an activity holds
+#: or waits for when it is cancelled, closed or left behind lies on the path (C16-m7: an assertion in locks.py; C06-m9: a truthy
+#: `__aexit__` in locks.py; a clean-up in streams.py or resource.py that swallows GeneratorExit would break containment just
+#: the same): like C02 and C03 they pin every definition of every file of the native API
+ALL_NATIVE = PINS['C02']
+for _pid in ('C04', 'C05', 'C06', 'C07', 'C16', 'C20'):
+    PINS[_pid] = PINS[_pid] + [k for k in ALL_NATIVE if k not in PINS[_pid]]
 for _pid in PINS:
     if _pid != 'C17':
         PINS[_pid] = PINS[_pid] + [k for k in CORE_PINS if k not in PINS[_pid]]
